@@ -6,7 +6,7 @@ import numpy as np
 
 from checks import common, mahal
 from checks.common import case
-from symx import core, slicer, stubs
+from symx import core, harness, slicer, stubs
 from symx.npproxy import NP
 
 FUNCS = ['metric_learn.nca.NCA._loss_grad_lbfgs', 'NCA.fit (call site of scipy.optimize.minimize)', 'metric_learn.mlkr.MLKR._loss',
@@ -181,20 +181,33 @@ DATA = {'a': (np.array([[0., 0.], [1., 0.5], [0.5, 2.], [3., 0.], [3.5, 1.], [2.
         's': (np.array([[0., 0.], [1., 0.5], [3., 0.], [2.5, 1.5]]), np.array([0, 0, 1, 1]))}
 
 
-def _hinge_objective(ctx, L, X, y, targets, reg, kdim, d):
-  """reg * sum pull + (1-reg) * sum_{i, j target of i, l other class} [1 + d(i,j) - d(i,l)]_+"""
+def _hinge_objective(ctx, L, X, y, targets, reg, kdim, d, terms=None):
+  """reg * sum pull + (1-reg) * sum_{i, j target of i, l other class} [1 + d(i,j) - d(i,l)]_+
+  `terms` (optional list) receives (coefficient, difference vector) of every squared-distance term active on this path, so that the caller
+  can write down the derivative 2 L sum_t c_t v_t v_t^T of the documented objective on the path's active set"""
   n = len(y)
   pull, push = 0, 0
   for i in range(n):
     for j in targets[i]:
       dij = _sqd(L, X[i], X[j], kdim, d)
       pull = pull + dij
+      if terms is not None:
+        terms.append((reg, X[i] - X[j]))
       for l in range(n):
         if y[l] != y[i]:
           h = 1 + dij - _sqd(L, X[i], X[l], kdim, d)
           if bool(h > 0):              # forks: every active-set pattern is a path (keeps the comparison polynomial)
             push = push + h
+            if terms is not None:
+              terms.append((1 - reg, X[i] - X[j]))
+              terms.append((-(1 - reg), X[i] - X[l]))
   return reg * pull + (1 - reg) * push
+
+
+def _hinge_gradient(L, terms, kdim, d):
+  """2 L sum_t c_t v_t v_t^T"""
+  S = [[sum(c * v[a] * v[b] for c, v in terms) for b in range(d)] for a in range(d)]
+  return [[2 * sum(L[r, a] * S[a][b] for a in range(d)) for b in range(d)] for r in range(kdim)]
 
 
 def lmnn_objective_case(dname, kdim, nn):
@@ -216,8 +229,15 @@ def lmnn_objective_case(dname, kdim, nn):
     from metric_learn.lmnn import _sum_outer_products
     dfG = _sum_outer_products(X, targets.flatten(), np.repeat(np.arange(n), nn))
     G, objective, total_active = est._loss_grad(X.copy(), L.copy(), dfG, nn, reg, targets, y)
-    ref = _hinge_objective(ctx, L, X, y, targets, reg, kdim, d)
+    terms = []
+    ref = _hinge_objective(ctx, L, X, y, targets, reg, kdim, d, terms)
     ctx.require('objective_is_pull_plus_hinge_push', ctx.eq(objective, ref, tol=1e-7))
+    # on the path's active set the documented objective is a polynomial in L: its derivative is 2 L sum_t c_t v_t v_t^T
+    # (the finite-difference cross-check of this oracle below runs only away from the kinks)
+    Gref = _hinge_gradient(L, terms, kdim, d)
+    for r in range(kdim):
+      for c in range(d):
+        ctx.require('gradient_is_derivative_of_documented_objective_on_the_active_set', ctx.eq(G[r, c], Gref[r][c], tol=1e-7))
     if not ctx.symbolic:
       Lf = np.asarray(L, float)
       # finite differences are meaningless on a kink: skip points where some hinge term is (nearly) zero
@@ -235,6 +255,45 @@ def lmnn_objective_case(dname, kdim, nn):
           E[r, c] = h
           fd = (f(Lf + E) - f(Lf - E)) / (2 * h)
           ctx.require('gradient_matches_finite_differences_of_documented_objective', ctx.eq(fd, float(G[r, c]), tol=1e-3))
+  return fn
+
+
+def lmnn_fit_case(dname, kdim, max_iter, max_evals=4):
+  """the whole LMNN.fit on a fixed data set from EVERY array initialisation L0 (symbolic k x d): with max_iter <= 2 no step is taken and
+  components_ is exactly L0; with a positive number of iterations the returned transformation never has a larger documented objective
+  (independent reference) than L0.  The real _loss_grad runs on symbolic L; the number of objective evaluations per path is bounded."""
+  def fn(ctx):
+    from metric_learn import LMNN
+    X, y = DATA[dname]
+    n, d = X.shape
+    L0 = ctx.real('L0', (kdim, d))
+    lr = ctx.real('learn_rate')
+    ctx.assume_pos(lr)
+    est = LMNN(init=L0.copy(), n_neighbors=1, n_components=kdim, max_iter=max_iter, learn_rate=lr, regularization=0.5)
+    evals = []
+    real_lg = LMNN._loss_grad
+
+    def counted(X_, L_, *a):
+      if len(evals) >= max_evals:
+        # stated bound on objective evaluations (initial point + accepted / rejected trial steps)
+        raise (core.PathAbort() if ctx.symbolic else harness.Reject())
+      evals.append(1)
+      return real_lg(est, X_, L_, *a)
+    est._loss_grad = counted
+    with warnings.catch_warnings():
+      warnings.simplefilter('ignore')
+      r = est.fit(X.copy(), y.copy())
+    ctx.require('fit_returns_self', ctx.cond(r is est))
+    Lf = est.components_
+    ctx.require('components_shape', ctx.cond(np.shape(Lf) == (kdim, d)))
+    if max_iter <= 2:
+      ctx.require('zero_iterations_return_the_initialisation', ctx.all_eq(Lf, L0, tol=0.0))
+      ctx.require('objective_evaluated_at_most_once', ctx.cond(len(evals) <= 1))
+      return
+    targets = est._select_targets(X, y)
+    f0 = _hinge_objective(ctx, L0, X, y, targets, 0.5, kdim, d)
+    f1 = _hinge_objective(ctx, Lf, X, y, targets, 0.5, kdim, d)
+    ctx.require('returned_transformation_not_worse_than_initialisation', ctx.le(f1, f0, tol=1e-9))
   return fn
 
 
@@ -321,6 +380,17 @@ def cases(tier, seed):
                       concrete_only=True, validate=60, cost=3))
   out.append(case('lmnn_objective_b_k2_nn2', lmnn_objective_case('b', 2, 2), FUNCS, 'data set b, every L in R^{2x2}, 2 target neighbours', tiers=T, cost=2000,
                   max_paths=800000, validate=6, hard_timeout_s=6000))
+  for mi in (0, 2):
+    out.append(case('lmnn_fit_zero_iterations_max_iter%d' % mi, lmnn_fit_case('s', 1, mi), FUNCS,
+                    'LMNN.fit on data set s (4 points), init = EVERY 1x2 array, max_iter=%d (no step): components_ is the initialisation' % mi,
+                    cost=10, validate=4, max_paths=20000))
+  # (a symbolic whole-fit case with >= 1 iteration was tried: z3 answers unknown after 13 min on f(L0 - r G(L0)) <= f(L0); the claim is
+  # established compositionally instead: objective identity for every L + sliced loop step accepting only non-increasing objective values;
+  # the whole fit with iterations is sampled)
+  for mi in (3, 6):
+    out.append(case('lmnn_fit_iterations_sampled_max_iter%d' % mi, lmnn_fit_case('a', 1, mi, max_evals=10 ** 6), FUNCS,
+                    'LMNN.fit on data set a, 40 random array initialisations and learn rates, max_iter=%d: documented objective of the result <= that of the '
+                    'initialisation (sampled, not solver-decided)' % mi, concrete_only=True, validate=40, cost=3))
   out.append(case('lmnn_loop', lmnn_loop_case(12), FUNCS,
                   'one main-loop iteration from an arbitrary (L, G, objective, learn_rate), objective values uninterpreted, up to 11 backtracking halvings', cost=10, validate=0))
   return out
